@@ -552,6 +552,10 @@ class Interp:
                     fn.defining_class = st.name
                     if any(isinstance(d, ast.Name) and d.id == "property" for d in x.decorator_list):
                         fn.is_property = True
+                    if any(isinstance(d, ast.Name) and d.id == "staticmethod" for d in x.decorator_list):
+                        fn.is_static = True
+                    if any(isinstance(d, ast.Name) and d.id == "classmethod" for d in x.decorator_list):
+                        fn.is_classmethod = True
                     setter = next((d for d in x.decorator_list if isinstance(d, ast.Attribute) and d.attr == "setter"), None)
                     if setter is not None:
                         cenv.set(f"__set_{x.name}", fn)
@@ -566,7 +570,54 @@ class Interp:
                         continue
                 else:
                     raise Unsupported(f"class body statement {type(x).__name__}")
-            env.set(st.name, ClassObj(st.name, cenv.vars, bases))
+            cls_obj = ClassObj(st.name, cenv.vars, bases)
+            is_dc = any((isinstance(d, ast.Name) and d.id == "dataclass") or (isinstance(d, ast.Attribute) and d.attr == "dataclass") or (isinstance(d, ast.Call) and ((isinstance(d.func, ast.Name) and d.func.id == "dataclass") or (isinstance(d.func, ast.Attribute) and d.func.attr == "dataclass"))) for d in st.decorator_list)
+            if is_dc and "__init__" not in cenv.vars:
+                fields = []
+                for c in reversed(cls_obj.mro()):
+                    fields += [f for f in getattr(c, "dc_fields", []) if f[0] not in [g[0] for g in fields]]
+                own = []
+                for x in st.body:
+                    if isinstance(x, ast.AnnAssign) and isinstance(x.target, ast.Name):
+                        own.append((x.target.id, x.value))
+                fields = [f for f in fields if f[0] not in [o[0] for o in own]] + own
+                cls_obj.dc_fields = fields
+                interp = self
+
+                def _dc_init(inst, *args, **kwargs):
+                    names = [f for f, _ in fields]
+                    vals = {}
+                    if len(args) > len(names):
+                        raise PyRaise("TypeError")
+                    for f, a in zip(names, args):
+                        vals[f] = a
+                    for k, v in kwargs.items():
+                        if k not in names or k in vals:
+                            raise PyRaise("TypeError")
+                        vals[k] = v
+                    for f, d in fields:
+                        if f in vals:
+                            continue
+                        if d is None:
+                            raise PyRaise("TypeError")
+                        if isinstance(d, ast.Call) and isinstance(d.func, ast.Name) and d.func.id == "field":
+                            kw = {k.arg: k.value for k in d.keywords}
+                            if "default_factory" in kw:
+                                vals[f] = interp.call(interp.ev(kw["default_factory"], env), [])
+                            elif "default" in kw:
+                                vals[f] = interp.ev(kw["default"], env)
+                            else:
+                                raise PyRaise("TypeError")
+                        else:
+                            vals[f] = interp.ev(d, env)
+                    for f in names:
+                        interp.set_attribute(inst, f, vals[f])
+                    if "__post_init__" in inst.cls.attrs:
+                        interp.call(inst.cls.attrs["__post_init__"], [inst])
+
+                cls_obj.attrs["__init__"] = _bound(_dc_init)
+                cls_obj.own["__init__"] = cls_obj.attrs["__init__"]
+            env.set(st.name, cls_obj)
         elif isinstance(st, ast.Raise):
             if st.exc is None:
                 cur = getattr(self, "_handling", None)
@@ -620,6 +671,16 @@ class Interp:
                 self.run(st.finalbody, env)
         elif isinstance(st, ast.With):
             self._with(st, 0, env)
+        elif isinstance(st, ast.Match):
+            subject = self.ev(st.subject, env)
+            for case in st.cases:
+                binds = {}
+                if self._match(case.pattern, subject, binds, env):
+                    for k, v in binds.items():
+                        env.set(k, v)
+                    if case.guard is None or self.truth(self.ev(case.guard, env)):
+                        self.run(case.body, env)
+                        break
         elif isinstance(st, (ast.Import, ast.ImportFrom, ast.Global, ast.Nonlocal)):
             if isinstance(st, ast.Nonlocal):
                 raise Unsupported("nonlocal")
@@ -660,6 +721,76 @@ class Interp:
             self.call(self.getattr(mgr, "__exit__"), [None, None, None])
             raise
         self.call(self.getattr(mgr, "__exit__"), [None, None, None])
+
+    def _match(self, pat, v, binds, env):
+        if isinstance(pat, ast.MatchValue):
+            return self.compare(ast.Eq(), v, self.ev(pat.value, env))
+        if isinstance(pat, ast.MatchSingleton):
+            return v is pat.value
+        if isinstance(pat, ast.MatchAs):
+            if pat.pattern is not None and not self._match(pat.pattern, v, binds, env):
+                return False
+            if pat.name is not None:
+                binds[pat.name] = v
+            return True
+        if isinstance(pat, ast.MatchOr):
+            for p in pat.patterns:
+                b2 = {}
+                if self._match(p, v, b2, env):
+                    binds.update(b2)
+                    return True
+            return False
+        if isinstance(pat, ast.MatchClass):
+            cls = self.ev(pat.cls, env)
+            if not BUILTINS["isinstance"](v, cls):
+                return False
+            if pat.patterns:
+                # positional sub-patterns: only the built-in single-value form `int(x)` / `str(x)` ... binds the subject
+                if len(pat.patterns) == 1 and isinstance(cls, type):
+                    return self._match(pat.patterns[0], v, binds, env)
+                raise Unsupported("positional class pattern")
+            for attr, p in zip(pat.kwd_attrs, pat.kwd_patterns):
+                try:
+                    av = self.getattr(v, attr)
+                except PyRaise:
+                    return False
+                if not self._match(p, av, binds, env):
+                    return False
+            return True
+        if isinstance(pat, ast.MatchSequence):
+            if not isinstance(v, (list, tuple)) or isinstance(v, str):
+                return False
+            vals = list(v)
+            star = [i for i, p in enumerate(pat.patterns) if isinstance(p, ast.MatchStar)]
+            if star:
+                i = star[0]
+                after = len(pat.patterns) - i - 1
+                if len(vals) < len(pat.patterns) - 1:
+                    return False
+                for p, x in zip(pat.patterns[:i], vals[:i]):
+                    if not self._match(p, x, binds, env):
+                        return False
+                if pat.patterns[i].name is not None:
+                    binds[pat.patterns[i].name] = vals[i : len(vals) - after]
+                for p, x in zip(pat.patterns[i + 1 :], vals[len(vals) - after :]):
+                    if not self._match(p, x, binds, env):
+                        return False
+                return True
+            if len(vals) != len(pat.patterns):
+                return False
+            return all(self._match(p, x, binds, env) for p, x in zip(pat.patterns, vals))
+        if isinstance(pat, ast.MatchMapping):
+            if not isinstance(v, dict):
+                return False
+            for k, p in zip(pat.keys, pat.patterns):
+                kk = self.ev(k, env)
+                if kk not in v or not self._match(p, v[kk], binds, env):
+                    return False
+            if pat.rest is not None:
+                used = [self.ev(k, env) for k in pat.keys]
+                binds[pat.rest] = {k: x for k, x in v.items() if k not in used}
+            return True
+        raise Unsupported(f"pattern {type(pat).__name__}")
 
     def assign(self, t, v, env):
         if isinstance(t, ast.Name):
@@ -975,6 +1106,10 @@ class Interp:
                 if isinstance(v, Closure):
                     if getattr(v, "is_property", False):
                         return self.call(v, [o])
+                    if getattr(v, "is_static", False):
+                        return v
+                    if getattr(v, "is_classmethod", False):
+                        return BoundMethod(v, o.cls)
                     return BoundMethod(v, o)
                 return v
             if "__getattr__" in o.cls.attrs:
@@ -984,7 +1119,10 @@ class Interp:
             if name in ("__name__", "__qualname__"):
                 return o.name
             if name in o.attrs:
-                return o.attrs[name]
+                v = o.attrs[name]
+                if isinstance(v, Closure) and getattr(v, "is_classmethod", False):
+                    return BoundMethod(v, o)
+                return v
             raise PyRaise("AttributeError")
         if isinstance(o, HObj):
             if name in o.attrs:
@@ -1059,6 +1197,8 @@ class Interp:
         for tp, names in SAFE_METHODS.items():
             if type(o) is tp and name in names:
                 return _bound(getattr(o, name))
+        if callable(o) and getattr(o, "_absexec_builtin", False) and name in ("from_iterable",) and hasattr(o, name):
+            return getattr(o, name)
         if isinstance(o, type) and o is dict and name == "fromkeys":
             return _bound(dict.fromkeys)
         raise Unsupported(f"attribute {name} of {type(o).__name__}")
@@ -1101,6 +1241,11 @@ class Interp:
                 return SuperProxy(inst, start)
         fn = self.ev(e.func, env)
         args = self._elts(e.args, env)
+        if fn is BUILTINS.get("map") and len(args) >= 2:
+            seqs = [self.iterate(a) for a in args[1:]]
+            return iter([self.call(args[0], list(xs)) for xs in zip(*seqs)])
+        if fn is BUILTINS.get("filter") and len(args) == 2:
+            return iter([x for x in self.iterate(args[1]) if (self.truth(self.call(args[0], [x])) if args[0] is not None else self.truth(x))])
         if fn is BUILTINS.get("sorted") and args:
             kw = {k.arg: self.ev(k.value, env) for k in e.keywords if k.arg}
             return self._sorted(self.iterate(args[0]), kw.get("key"), bool(kw.get("reverse", False)))
@@ -1109,6 +1254,10 @@ class Interp:
                 return self.call(args[0].cls.attrs["__len__"], [args[0]])
             if isinstance(args[0], HObj) and "__len__" in args[0].methods:
                 return args[0].methods["__len__"]()
+        if fn is BUILTINS.get("vars") and len(args) == 1:
+            if isinstance(args[0], Instance):
+                return args[0].dict
+            raise PyRaise("TypeError")
         if fn is BUILTINS.get("hasattr") and len(args) == 2:
             try:
                 self.getattr(args[0], args[1])
@@ -1302,6 +1451,26 @@ def _mk_builtins():
         return [x for it in its for x in _iter(it)]
 
     @_builtin
+    def _from_iterable(its):
+        return [x for it in _iter(its) for x in _iter(it)]
+
+    _chain.from_iterable = _from_iterable
+
+    @_builtin
+    def _itemgetter(*keys):
+        @_builtin
+        def get(x):
+            try:
+                vals = tuple(x[k] for k in keys)
+            except (KeyError, IndexError, TypeError):
+                raise PyRaise("LookupError") from None
+            return vals[0] if len(keys) == 1 else vals
+
+        return get
+
+    b.update(itemgetter=_itemgetter)
+
+    @_builtin
     def _any(it):
         return any(_truth(x) for x in _iter(it))
 
@@ -1388,7 +1557,7 @@ def _mk_builtins():
     def _setattr(o, name, v):
         raise Unsupported("setattr()")
 
-    b.update(callable=_callable, copy_copy=_copy, setattr=_setattr)
+    b.update(callable=_callable, copy_copy=_copy, setattr=_setattr, vars=_setattr)
 
     @_builtin
     def _int(x=0):
@@ -1433,7 +1602,7 @@ def _mk_builtins():
     def _repr(x):
         return repr(x)
 
-    b.update(int=_int, float=_float, abs=_abs, round=_round, sum=_sum, print=_print, nullcontext=_nullcontext, repr=_repr)
+    b.update(map=_print, filter=_print, int=_int, float=_float, abs=_abs, round=_round, sum=_sum, print=_print, nullcontext=_nullcontext, repr=_repr)
 
     @_builtin
     def _islice(it, *a):
